@@ -120,6 +120,14 @@ def _(k):
     k.ensures("wf_again", lambda s: And(c_to(c(s)).t == c_to(oc(s)).t, c_lots(c(s)).t == c_lots(oc(s)).t, c_P(c(s)).t == c_P(oc(s)).t,
                                         c_from(c(s)).t >= c_from(oc(s)).t, c_from(c(s)).t <= c_to(c(s)).t + 1))
     k.raises_never("Exception")
+    # frame (needed since the engine's methods call seek through this contract): the candidates' from_index, the shared partial-amount map,
+    # and the fields of the freshly allocated iterator
+    k.modifies("AbstractAcquiredLotCandidates.__from_index", refs=lambda s: [s.a.lot_candidates])
+    for key in [("dhas", "txid"), ("dval", "txid", "Real"), ("dlen",)]:
+        k.modifies(key, refs=lambda s: [c_P(s.a.lot_candidates)])
+    k.modifies(("alloc",))
+    for f in ("__acquired_lot_list", "__start_index", "__end_index", "__step", "__index", "__order_type"):
+        k.modifies("ChronologicalAccountingMethodIterator." + f, refs=lambda s: [], fresh_only=True)
 
 
 @invariant(CHRON + ".seek_non_exhausted_acquired_lot", loop=0)
